@@ -296,7 +296,10 @@ def to_coq(c, o):
                 f"{cbool(c['plus1'])} {tape_coq(a['log'])} {cq(fl(a['r'][1]))} {cq(fl(a['r'][2]))} {d} {rec} {cnat(len(a['log']))}")
     if f == "biv":
         a = o["a"]
-        if a["r"][0] != "ok" or not math.isfinite(a["r"][2]) or (a["r"][3] and not all(math.isfinite(v) for v in a["r"][3])): return None
+        b = o["b"]
+        if a["r"][0] != "ok" or b["r"][0] != "ok" or not math.isfinite(a["r"][2]): return None
+        if any(t["r"][3] is not None and not all(math.isfinite(v) for v in t["r"][3]) for t in (a, b)):
+            SKIPPED[0] += 1; return None      # SST = SSB on some rearrangement: statistic not finite
         d = copt(None if a["r"][3] is None else [fl(v) for v in a["r"][3]], qlist)
         return (f"BivCase {qlist([F(v) for v in c['x']])} {zl(c['g1'])} {zl(c['g2'])} {cnat(c['reps'])} {cbool(c['plus1'])} {tape_coq(a['log'])} "
                 f"{cq(fl(a['r'][1]))} {cq(fl(a['r'][2]))} {d} {cnat(len(a['log']))}")
